@@ -274,6 +274,52 @@ static void two_step_breakdown_case(int n, int k)
     sym::witness("end");
 }
 
+// breakdown followed by a regular step inside ONE factorize_from call, on data chosen so that the restart direction has a
+// rational norm (all square roots of the first step are exact): V_k = e_0..e_{k-1}, A = blockdiag(A11, B) with B chosen from the
+// generator's draws so that the orthogonalised restart vector is (0,..,0, 3t, 4t).  One entry of B stays symbolic.
+static void two_step_rational_case()
+{
+    using AOp = ArnoldiOp<Real, MatOp, IdentityBOp>;
+    using Fac = Arnoldi<Real, AOp>;
+    const int n = 4, k = 2;
+    sym::set_normalize(true);
+    // the draws expand_basis will make for this restart (seed 2*k, iter 0), through the same (stubbed) generator
+    SimpleRandom<Real> rng(2 * k);
+    RVec r = rng.random_vec(n);
+    if ((r[2] == Real(0)) || (r[3] == Real(0)))
+        sym::cut("a draw is zero: choose another configuration");
+    MatOp op;
+    op.A = RMat::Zero(n, n);
+    op.A(0, 0) = sym::rational(2, 1);
+    op.A(0, 1) = sym::rational(1, 2);
+    op.A(1, 0) = sym::rational(1, 3);
+    op.A(1, 1) = sym::rational(-1, 1);
+    op.A(2, 2) = sym::rational(3, 1) / r[2];  // (B r)_2 = 3, (B r)_3 = 4: restart direction (0,0,3,4)/5
+    op.A(3, 3) = sym::rational(4, 1) / r[3];
+    Real x = sym::fresh("b23");
+    op.A(2, 3) = x;  // symbolic coupling inside the second block
+    op.A(3, 2) = sym::fresh("b32");
+    // keep the restart direction rational: compensate the symbolic couplings on the diagonal entries
+    op.A(2, 2) = op.A(2, 2) - x * r[3] / r[2];
+    op.A(3, 3) = op.A(3, 3) - op.A(3, 2) * r[2] / r[3];
+    IdentityBOp bop;
+    Fac fac(AOp(op, bop), n);
+    fac.m_fac_V = RMat::Zero(n, n);
+    fac.m_fac_H = RMat::Zero(n, n);
+    fac.m_fac_V(0, 0) = Real(1);
+    fac.m_fac_V(1, 1) = Real(1);
+    fac.m_fac_H.topLeftCorner(k, k) = op.A.topLeftCorner(k, k);
+    fac.m_fac_f = RVec::Zero(n);
+    fac.m_beta = Real(0);
+    fac.m_k = k;
+    Eigen::Index counter = 0;
+    check_invariant<Fac, AOp>("pre-state", fac, op.A, RMat::Identity(n, n), n, k, false, op.applied, counter);
+    fac.factorize_from(k, k + 2, counter);
+    check_invariant<Fac, AOp>("after factorize_from", fac, op.A, RMat::Identity(n, n), n, k + 2, false, op.applied, counter);
+    sym::check_eq("breakdown step: H(k,k-1)=0", fac.m_fac_H(k, k - 1), Real(0));
+    sym::witness("end");
+}
+
 // init(v0) with a numeric start vector
 template <bool IsLanczos>
 static void init_case(int n, int vkind)
@@ -449,6 +495,7 @@ int main(int argc, char** argv)
                 cases.push_back({"arnoldi-step" + tail, [n, k, b]() { step_case<false>(n, k, b); }});
                 cases.push_back({"lanczos-step" + tail, [n, k, b]() { step_case<true>(n, k, b); }});
             }
+    cases.push_back({"arnoldi-2step-rational/n4/k2", two_step_rational_case});
     cases.push_back({"arnoldi-2step-breakdown/n4/k1", []() { two_step_breakdown_case<false>(4, 1); }});
     cases.push_back({"lanczos-2step-breakdown/n4/k1", []() { two_step_breakdown_case<true>(4, 1); }});
     cases.push_back({"arnoldi-2step-breakdown/n4/k2", []() { two_step_breakdown_case<false>(4, 2); }});
